@@ -31,6 +31,8 @@ import (
 )
 
 type dev struct {
+	// Gov != "": a governance-set value is hostile instead of a message field
+	Gov     string `json:"gov,omitempty"`
 	MsgType string `json:"msg_type"`
 	Field   string `json:"field"`
 	Kind    string `json:"kind"`
@@ -84,7 +86,13 @@ func execute(d *dev) (run *hist.Run, blocks int, applied int) {
 			blocksWithRecovered++
 		}
 	}}
-	if d != nil {
+	if d != nil && d.Gov != "" {
+		h.AfterSetup = func(r *hist.Run) {
+			if applyGov(r, d.Gov, d.Value) {
+				applied++
+			}
+		}
+	} else if d != nil {
 		h.Mutate = func(i int, txs []hist.Tx) []hist.Tx {
 			for ti := range txs {
 				for mi, m := range txs[ti].Msgs {
@@ -188,8 +196,14 @@ func run(r *report.Run, shard, nshards int, replayFile string) {
 			}
 		}
 	}
+	for _, g := range govMenu() {
+		for _, v := range g.Values {
+			devs = append(devs, dev{Gov: g.Name, Value: v, Kind: "gov", Mode: "setup"})
+		}
+	}
 	if shard == 0 {
 		r.Extra["deviations_total"] = float64(len(devs))
+		r.Extra["governance_value_deviations"] = float64(len(govMenu()))
 	}
 	deadline := r.Deadline(170*time.Second, 27*time.Minute)
 	outcomes := map[string]int{}
@@ -222,6 +236,9 @@ func run(r *report.Run, shard, nshards int, replayFile string) {
 }
 
 func judge(r *report.Run, d dev, run *hist.Run, blocks int) {
+	if d.Gov != "" {
+		d.MsgType, d.Field = "gov", d.Gov
+	}
 	if run.Panic != nil && run.PanicStage == "script" {
 		fmt.Fprintf(os.Stderr, "harness error: script panicked under %s at height %d: %v\n", d, run.PanicAt, run.Panic)
 		os.Exit(2)
